@@ -226,6 +226,7 @@ def tables_c13(run):
                                                          'P0[0]*P1[1] - P0[1]*P1[0]'])
     _skewa_vexa(run)
     _adjoint(run)
+    _adjoint2(run)
     _delta(run)
 
 
@@ -429,6 +430,97 @@ def _adjoint(run):
             run.holds(RULE, ca.f.key, 'ad', 'blocks agree with [[skew(w), skew(v)], [0, skew(w)]]', f=ca.f, node=r)
 
 
+def _adjoint2(run):
+    """SE(2) adjoint [[R, (t_y, -t_x)^T], [0, 0, 1]]: the arm guarded by the 3x3 shape must exist and return that block table;
+    the arm guarded by the 2x2 shape must not be the same test (each shape selects its own arm)."""
+    cx = Ctx(run, 'base/transforms2d:adjoint2')
+    T = cx.pname(0)
+    from . import r7_binary
+    nv = sum(1 for o in run.obs if o['status'] == 'violation')
+    r7_binary.check_duplicates(run, cx.f)        # the same shape test twice in the chain leaves one arm unreachable
+    if sum(1 for o in run.obs if o['status'] == 'violation') > nv:
+        return
+    rets3 = cx.ret_where(['%s.shape == (3, 3)' % T], True)
+    rets2 = cx.ret_where(['%s.shape == (2, 2)' % T], True)
+    if len(rets3) != 1:
+        run.error('R16: adjoint2: the arm selected by the 3x3 shape was not found')
+        return
+    if rets2 and any(r is rets3[0] for r in rets2):
+        run.error('R16: adjoint2: one return under both shapes')
+        return
+    ev = [e for (r_, e) in sl_eval(cx) if r_ is rets3[0]]
+    if len(ev) != 1:
+        run.error('R16: adjoint2: the SE(2) arm has %d evaluated paths' % len(ev))
+        return
+
+    class Parts(ast.NodeTransformer):
+        def visit_Subscript(self, n):
+            self.generic_visit(n)
+            for pat, nm in (('tr2rt(%s)[0]' % T, 'R'), ('tr2rt(%s)[1]' % T, 't'), ('%s[:2, :2]' % T, 'R'), ('%s[:2, 2]' % T, 't'),
+                            ('%s[0:2, 0:2]' % T, 'R'), ('%s[0:2, 2]' % T, 't')):
+                if matches(pat, n) is not None:
+                    return ast.Name(id=nm, ctx=ast.Load())
+            for pat, nm in (('%s[0, 2]' % T, 't[0]'), ('%s[1, 2]' % T, 't[1]')):
+                if matches(pat, n) is not None:
+                    return parse_expr(nm)
+            return n
+
+        def visit_Call(self, n):
+            self.generic_visit(n)
+            for pat, nm in (('t2r(%s)' % T, 'R'), ('transl2(%s)' % T, 't')):
+                if matches(pat, n) is not None:
+                    return ast.Name(id=nm, ctx=ast.Load())
+            return n
+    e = Parts().visit(_copy.deepcopy(ev[0]))
+    b = None
+    if isinstance(e, ast.Call) and isinstance(e.func, ast.Name) and e.func.id == 'block' and e.args and \
+            isinstance(e.args[0], (ast.List, ast.Tuple)) and all(isinstance(r, (ast.List, ast.Tuple)) for r in e.args[0].elts):
+        b = [list(r.elts) for r in e.args[0].elts]
+    if b is None or len(b) != 2 or len(b[0]) != 2:
+        run.error('R16: adjoint2: the SE(2) arm is not np.block([[R, column], [last row]])')
+        return
+    key = cx.f.key
+    # block (0,0): the rotation part
+    if not (isinstance(b[0][0], ast.Name) and b[0][0].id == 'R'):
+        run.violation(RULE, key, 'adjoint2 block (0,0)', 'the rotation block is %s, the SE(2) adjoint [[R, (t_y, -t_x)^T],[0, 0, 1]] has R there'
+                      % ast.unparse(b[0][0]), f=cx.f, node=rets3[0])
+        return
+    # block (0,1): a 2x1 column; recognised spellings give its two entries
+    col = None
+    for pat in ('c_[_A, _B].T', 'array([[_A], [_B]])', 'array([_A, _B]).reshape(2, 1)', 'array([_A, _B]).reshape(-1, 1)',
+                'r_[_A, _B].reshape(2, 1)', 'r_[_A, _B].reshape(-1, 1)', 'array([_A, _B])[:, newaxis]', 'colvec([_A, _B])',
+                'colvec(array([_A, _B]))', 'colvec(r_[_A, _B])', 'vstack((_A, _B))', 'vstack([_A, _B])'):
+        m = matches(pat, b[0][1])
+        if m is not None:
+            col = (m['_A'], m['_B'])
+            break
+    if col is None:
+        run.error('R16: adjoint2: the translation column %s is not a recognised 2x1 spelling' % ast.unparse(b[0][1]))
+        return
+    nm = Normaliser()
+    got = [nm.poly(col[0]), nm.poly(col[1])]
+    want = [nm.poly(parse_expr('t[1]')), nm.poly(parse_expr('-t[0]'))]
+    if got != want:
+        run.violation(RULE, key, 'adjoint2 block (0,1)', 'the translation column is (%s, %s); Ad(T) (v, w) = vee(T [S] T^-1) requires (t_y, -t_x)'
+                      % (got[0], got[1]), f=cx.f, node=rets3[0])
+        return
+    # last row: 0 0 1
+    last = b[1]
+    flat = []
+    for x in last:
+        m = matches('zeros((1, 2), *_X)', x)
+        m2 = matches('zeros(2, *_X)', x)
+        if m is not None or m2 is not None:
+            flat += [0, 0]
+        else:
+            cv = nm.poly(x).const_value()
+            flat.append(cv if cv is not None else ast.unparse(x))
+    if flat != [0, 0, 1]:
+        run.violation(RULE, key, 'adjoint2 last row', 'the last row is %s, the SE(2) adjoint has (0, 0, 1)' % (flat,), f=cx.f, node=rets3[0])
+        return
+    run.holds(RULE, key, 'adjoint2 (3, 3)', 'blocks agree with [[R, (t_y, -t_x)^T], [0, 0, 1]] under the 3x3 shape test', f=cx.f, node=rets3[0])
+
+
 def _roles(cx, ret, shape):
     """Map local names to roles R (rotation part of the argument), t (translation part), Z (zero block)."""
     T = cx.pname(0)
@@ -588,6 +680,13 @@ def tables_c12(run):
     check_expr_fn(run, 'base/quaternions:qvmul', 'qvmul sandwich', 'qqmul(P0, qqmul(pure(P1), conj(P0)))[1:4]',
                   alts=('qqmul(qqmul(P0, pure(P1)), conj(P0))[1:4]',))
     check_vector_fn(run, 'base/quaternions:pure', 'pure', ['0', 'P0'])
+    # minimal vector form: v(a) v(b) = a x b + s_a b + s_b a with s_x = sqrt(1 - |x|^2) -- the vector part of the full product
+    # of (s_a, a) and (s_b, b); the scalar parts are recomputed from the vector parts
+    sa, sb = 'sqrt(1 - sum(P0**2))', 'sqrt(1 - sum(P1**2))'
+    check_vector_fn(run, 'base/quaternions:vvmul', 'vvmul (minimal vector form of the product)',
+                    ['P0[1]*P1[2] - P0[2]*P1[1] + %s*P1[0] + %s*P0[0]' % (sa, sb),
+                     'P0[2]*P1[0] - P0[0]*P1[2] + %s*P1[1] + %s*P0[1]' % (sa, sb),
+                     'P0[0]*P1[1] - P0[1]*P1[0] + %s*P1[2] + %s*P0[2]' % (sa, sb)])
     check_expr_fn(run, 'base/quaternions:inner', 'inner', 'dot(P0, P1)')
     check_vector_fn(run, 'base/quaternions:dot', 'dot (world frame rate)',
                     ['-0.5*dot(P0[1:4], P1)', '0.5*((P0[0]*eye(3, 3) - skew(P0[1:4])) @ P1)'])
@@ -718,7 +817,10 @@ def _dualquat(run):
         else:
             run.holds(RULE, cm.f.key, '8x8 matrix', 'blocks agree with [[R, 0], [D, R]]', f=cm.f, node=r)
     for key, want_, nm_ in (('DualQuaternion:DualQuaternion.conj', 'DualQuaternion(SELF.real.conj(), SELF.dual.conj())', 'conj'),
-                            ('DualQuaternion:DualQuaternion.vec', 'r_[SELF.real.vec, SELF.dual.vec]', 'vec')):
+                            ('DualQuaternion:DualQuaternion.vec', 'r_[SELF.real.vec, SELF.dual.vec]', 'vec'),
+                            # the dual-number extension is component-wise for + and -: (a + eps b) +/- (c + eps d) = (a +/- c) + eps (b +/- d)
+                            ('DualQuaternion:DualQuaternion.__add__', 'DualQuaternion(SELF.real + P0.real, SELF.dual + P0.dual)', 'sum'),
+                            ('DualQuaternion:DualQuaternion.__sub__', 'DualQuaternion(SELF.real - P0.real, SELF.dual - P0.dual)', 'difference')):
         check_expr_fn(run, key, nm_, want_)
     # norm: the dual-number square root of a + eps b with a = real*conj(real), b = real*conj(dual) + dual*conj(real):
     #        (sqrt(a.s), b.s / (2 sqrt(a.s)))      -- evaluated on the return with every local in place, whatever the locals are called
@@ -769,6 +871,17 @@ WRONG_FORMS = {
         ('UnitQuaternion(left.binop(right, lambda x, y: qqmul(conj(x), y)))', 'the left operand is conjugated instead of the right one'),
         ('UnitQuaternion(left.binop(right, lambda x, y: qqmul(x, y)))', 'the right operand is not conjugated: this is the product, not the quotient'),
         ('UnitQuaternion(left.binop(right, lambda x, y: qqmul(conj(y), x)))', 'conj(y) multiplies on the left: q2^-1 q1 instead of q1 q2^-1')],
+    'minimal vector form of the value': [('self._A[1:4]', 'the vector part is returned without the sign choice of q2v: q and -q (the same rotation) get different minimal forms, and Vec3(q.vec3) is -q'),
+                                         ('self.v', 'the vector part is returned without the sign choice of q2v: q and -q (the same rotation) get different minimal forms'),
+                                         ('self.vec[1:4]', 'the vector part is returned without the sign choice of q2v')],
+    'product in minimal vector form': [('vvmul(qv2, qv1)', 'the operands are exchanged: the quaternion product does not commute')],
+    'rate (world)': [('dotb(self._A, omega)', 'the body-frame rate is returned for the world-frame method'), ('dot(omega, self._A)', 'quaternion and angular velocity are exchanged')],
+    'rate (body)': [('dot(self._A, omega)', 'the world-frame rate is returned for the body-frame method'), ('dotb(omega, self._A)', 'quaternion and angular velocity are exchanged')],
+    'sum is component-wise through binop': [('Quaternion(left.binop(right, lambda x, y: x - y))', 'the sum subtracts the components'),
+                                            ('Quaternion(left.binop(right, lambda x, y: x * y))', 'the sum multiplies the components')],
+    'difference is component-wise through binop': [('Quaternion(left.binop(right, lambda x, y: y - x))', 'the difference is right - left'),
+                                                   ('Quaternion(right.binop(left, lambda x, y: x - y))', 'the difference is right - left'),
+                                                   ('Quaternion(left.binop(right, lambda x, y: x + y))', 'the difference adds the components')],
     'twist inverse is negation': [('self.__class__([t for t in self.data])', 'inverse returns the twist itself')],
     'twist of a pose is its logarithm': [('Twist3(self.log())', 'the twist=True option is not passed to log(): the matrix logarithm is handed to the twist constructor'),
                                          ('Twist2(self.log())', 'the twist=True option is not passed to log(): the matrix logarithm is handed to the twist constructor'),
@@ -844,6 +957,8 @@ ROUTES_C12 = [
     ('quaternion:Quaternion.__mul__', 'Quaternion * Quaternion -> qqmul through binop', ['Quaternion(left.binop(right, qqmul))'], 'any'),
     ('quaternion:UnitQuaternion.__mul__', 'UnitQuaternion * UnitQuaternion -> qqmul through binop', ['right.__class__(left.binop(right, qqmul))'], 'any'),
     ('quaternion:UnitQuaternion.__truediv__', 'q1 / q2 = q1 * conj(q2)', ['UnitQuaternion(left.binop(right, lambda x, y: qqmul(x, conj(y))))'], 'any'),
+    ('quaternion:Quaternion.__add__', 'sum is component-wise through binop', ['Quaternion(left.binop(right, lambda x, y: x + y))'], 'any'),
+    ('quaternion:Quaternion.__sub__', 'difference is component-wise through binop', ['Quaternion(left.binop(right, lambda x, y: x - y))'], 'any'),
     ('quaternion:Quaternion.__pow__', 'power through qpow on every element', ['self.__class__([qpow(q._A, n) for q in self])'], 'return'),
     ('quaternion:Quaternion.conj', 'conjugate of every element', ['self.__class__([conj(q._A) for q in self])'], 'return'),
     ('quaternion:Quaternion.inner', 'inner product through binop', ['self.binop(other, inner, list1=False)'], 'return'),
@@ -851,6 +966,8 @@ ROUTES_C12 = [
     ('quaternion:Quaternion.matrix', 'matrix form', ['matrix(self._A)'], 'return'),
     ('quaternion:UnitQuaternion.dot', 'rate (world)', ['dot(self._A, omega)'], 'return'),
     ('quaternion:UnitQuaternion.dotb', 'rate (body)', ['dotb(self._A, omega)'], 'return'),
+    ('quaternion:UnitQuaternion.vec3', 'minimal vector form of the value', ['q2v(self._A)'], 'return'),
+    ('quaternion:UnitQuaternion.qvmul', 'product in minimal vector form', ['vvmul(qv1, qv2)'], 'return'),
 ]
 
 
